@@ -1,4 +1,6 @@
 import MageModel.Gen.Dispatch
+import MageModel.Gen.Main
+import MageModel.Invoke.Front
 /-!
 # C04 — command-line words run exactly the named targets with converted arguments
 All `PkgInfo`s (any mix of plain, namespaced, imported and aliased targets, any parameter lists), all word lists,
@@ -170,6 +172,19 @@ theorem no_words (info : PkgInfo) (conv : Conv) (outcome : Call → Int) (ign : 
   · intro h; simp [run, h]
   · intro d h hi; simp [run, h, hi]
   · intro d h hi ha; simp [run, h, hi, ha]
+
+/-! ### through the front end: the words reach the compiled magefile verbatim -/
+
+/-- **`mage w₁ … wₙ` hands exactly `w₁ … wₙ` to the dispatch loop** — whatever the words look like (`-l`, `--`, `-v=x`):
+the front end passes its flags through the environment and puts `--` before the words, so the generated main's own
+flag parser consumes nothing of them (this is what `mage -- -l` relies on; D21). -/
+theorem words_reach_child_verbatim (pd : String → Option Int) (inv : MageModel.Invoke.Inv) :
+    MageModel.Gen.Flags.parse childSpecs pd (MageModel.Invoke.childArgv inv) [] = .ok ([], inv.args) := by
+  simp [MageModel.Invoke.childArgv, MageModel.Gen.Flags.parse, MageModel.Gen.Flags.classify]
+
+/-- given to the compiled binary directly, a first word that looks like a flag *is* parsed as one — `--` is needed there too -/
+example : MageModel.Gen.Flags.parse childSpecs (fun _ => none) ["-l"] [] = .ok ([("l", .b true)], []) := by decide
+example : MageModel.Gen.Flags.parse childSpecs (fun _ => none) ["--", "-l"] [] = .ok ([], ["-l"]) := by decide
 
 /-! ### non-vacuity -/
 def exInfo : PkgInfo :=
